@@ -480,6 +480,9 @@ def directed():
                "padding": "valid", "use_bias": True, "kq": qb, "bq": qb}),
       ("img", {"t": "QConv2D", "filters": 2, "kernel": 2, "strides": 2,
                "padding": "same", "use_bias": False, "kq": auto, "aq": relu}),
+      ("img", {"t": "QConv2D", "filters": 2, "kernel": 3, "strides": 1,
+               "padding": "same", "use_bias": True, "kq": qb, "bq": qb,
+               "mask": True}),
       ("img", {"t": "QDepthwiseConv2D", "kernel": 2, "strides": 1,
                "padding": "same", "depth_multiplier": 2, "use_bias": True,
                "dq": qb, "bq": qb}),
@@ -564,7 +567,7 @@ def directed():
     out.append({"label": "directed:%s:%s" % (l["t"], json.dumps(
         {k: (v.get("cls", v.get("str")) if isinstance(v, dict) else v)
          for k, v in l.items() if k in ("kq", "dq", "aq", "bidir", "as_cell",
-                                        "rq", "sq")},
+                                        "rq", "sq", "mask")},
         sort_keys=True)), "seed": 1, "world": _single(l, kind), "ops": ops})
   qd = {"t": "QDense", "units": 3, "use_bias": True, "kq": qb, "bq": qb}
   ada = {"t": "QAdaptiveActivation", "act": "quantized_relu", "bits": 6,
